@@ -42,7 +42,8 @@ class Color:
 
             self._rgb = parse_color_to_rgb(self.original, background=bg_rgb)
             self._parsed = True
-        except ValueError as e:
+        except (ValueError, TypeError) as e:
+            # TypeError: e.g. float(None) on 4-tuples such as (None, 0.0, "x", None)
             self._error = str(e)
             self._parsed = True
 
